@@ -142,11 +142,16 @@ pub struct RCase {
     pub img: Img,
     pub cut_words: Option<u32>,
     pub ops: Vec<ROp>,
+    /// gamma and zeta_3 reads may be issued at any position (self-synchronising data): the reference decoder
+    /// decides at run time whether a complete in-domain codeword starts there
+    #[serde(default)]
+    pub free: bool,
 }
 
 pub fn check_rcase(c: &RCase, env: &Env) -> Result<(RNotes, Built), Failure> {
     let b = c.img.build(c.cfg.e, c.cfg.r.word().bits(), c.cut_words);
-    let s = RStream { cfg: c.cfg, model: &b.model, starts: &b.starts, tables: &env.tables, free_codes: &[] };
+    const FREE: [Code; 2] = [Code::Gamma, Code::Zeta(3)];
+    let s = RStream { cfg: c.cfg, model: &b.model, starts: &b.starts, tables: &env.tables, free_codes: if c.free { &FREE } else { &[] } };
     let n = run_reader(&s, &c.ops)?;
     Ok((n, b))
 }
